@@ -712,6 +712,17 @@ func (ctx Ctx) copyExpr(n ast.Node, dst ast.Expr, src ast.Expr) coq.Expr {
 }
 
 func (ctx Ctx) callExpr(s *ast.CallExpr) coq.Expr {
+	// the builtin functions and types are recognized by name, but only when
+	// the name still refers to the predeclared object (a package may declare
+	// its own len, append, uint32, ...)
+	isIdent := func(e ast.Expr, name string) bool {
+		ident, ok := e.(*ast.Ident)
+		if !ok || ident.Name != name {
+			return false
+		}
+		obj := ctx.info.Uses[ident]
+		return obj == nil || obj.Parent() == types.Universe
+	}
 	if isIdent(s.Fun, "make") {
 		return ctx.makeExpr(s.Args)
 	}
